@@ -89,6 +89,10 @@ def run(ctx):
         # tool) pairs every algorithm with the back-end constant of the same curve and hash
         import c11
         common.borrow_rules(rep, lambda: c11.check_pairs("K1" if cfg == "K4" else "K2", ctx.crate(cfg), rep, {}), "C11.", "C18.keys")
+        # "a value rcgen cannot encode (e.g. a non-PrintableString country) makes the tool fail": the tool's only check on
+        # --country-name / names is rcgen's string constructor, so the admission predicates as compiled for the tool count
+        import c13
+        common.borrow_rules(rep, lambda: (c13.alpha(cfg, ctx.crate(cfg), rep), c13.sink(cfg, ctx.crate(cfg), rep)), "C13.", "C18.strings")
         # panic audit of the CLI
         for cname, cr in (("rustls_cert_gen", crate), ("rustls_cert_gen", lib)):
             sites = c10.sites(cr)
